@@ -452,8 +452,7 @@ Proof.
   intros H. destruct (tri_hyps_split _ _ _ _ H) as [A [B C]]. exact (proj1 (jt_styled_bounding_box_tr d t w al A B C)).
 Qed.
 
-(* C07_join_hypotheses_from_coordinates: proved in Proofs/JoinRange.v for V + 6 w + 8 <= 322 (vertices within +-V).
-   OPEN beyond that range: a bound on the USED intersection point (den^2 >= |dot| when nearly_colinear_has_error is false
-   keeps it within about 8 B^2 of the join) would lift the range to the +-2^13 in which the unbounded model equals the
-   i32 arithmetic.  The model oracle evaluates poly_hyps / tri_hyps on every generated case (suites join_poly_hyp,
-   join_tri_hyp: coordinates up to +-2^13, widths up to 64; always true so far). *)
+(* C07_join_hypotheses_from_coordinates: proved in Proofs/JoinRange.v for V + 6 w + 8 <= 8191 (vertices within +-V), with the
+   bound on the USED intersection point of Proofs/JoinPointBound.v.  Beyond that range the unbounded model no longer equals
+   the i32 arithmetic of the code (normal vector determinant), so nothing is left open here.  The model oracle still evaluates
+   poly_hyps / tri_hyps on every generated case (suites join_poly_hyp, join_tri_hyp). *)
